@@ -185,21 +185,27 @@ func runScens(prop string, scens []Scen) *ShardResult {
 				break
 			}
 			v := Violation{Scenario: sc.Desc, Choices: f.choices, Msg: f.msg, Key: f.key}
-			// determinism guard: five replays must agree
+			// determinism guard: the recorded schedule must fail on every one of five replays (the
+			// observation may differ only if the code under test is itself nondeterministic, e.g. ranges
+			// over a map - then every replay must still violate the property)
+			fails, same := 0, true
 			var obs0 string
 			for k := 0; k < 5; k++ {
 				y := vsched.Run(f.choices, vsched.Config{Trace: k == 0}, sc.Body)
 				m, mk := sc.Check(y)
 				o := sc.Obs(y) + "|" + mk
+				if m != "" {
+					fails++
+				}
 				if k == 0 {
 					obs0 = o
 					v.Trace = y.Trace
-					if m == "" {
-						res.Infra = fmt.Sprintf("NONDETERMINISM: violation %q not reproduced on replay", f.key)
-					}
 				} else if o != obs0 {
-					res.Infra = fmt.Sprintf("NONDETERMINISM on replay of violation: %q vs %q", obs0, o)
+					same = false
 				}
+			}
+			if fails != 5 {
+				res.Infra = fmt.Sprintf("NONDETERMINISM: violation %q reproduced on %d of 5 replays (same observation: %v)", f.key, fails, same)
 			}
 			if res.Infra != "" {
 				break
